@@ -454,6 +454,35 @@ func (ck *checker) checkFault(ctx context.Context, b *Built, t Target, withImage
 		}
 	}
 
+	// --- the remote-dependency report (walks the deps of every local module)
+	{
+		localAffected := false
+		for _, l := range s.locals() {
+			localAffected = localAffected || affected(l)
+		}
+		cyc, want := s.expectRemoteDeps(s.locals())
+		got, err := observeRemoteDeps(ws)
+		switch {
+		case err != nil:
+			var allowed []string
+			if cyc {
+				allowed = append(allowed, "cycle")
+			}
+			if localAffected {
+				allowed = append(allowed, plantClass)
+			}
+			judgeErr("remotedeps", err, Case{Expected: want}, allowed...)
+		case localAffected:
+			ck.violate("fault/remotedeps/"+plantLabel+"/no-error", "with the content of one pinned module unavailable, RemoteDepsForModuleSet reported dependencies although an ambiguous import is reached from a local module", b, t, Case{Observed: got})
+		case cyc:
+			ck.violate("fault/remotedeps/local-module-on-cycle/no-error", "RemoteDepsForModuleSet returned a report although a local module is on an import cycle", b, t, Case{Observed: got})
+		case !reflect.DeepEqual(got, want):
+			ck.violate("fault/remotedeps/"+remoteDepsSignature(got, want), "with the content of one pinned module unavailable, the reported remote dependencies differ from the provider-only modules the local modules reach instead of failing", b, t, Case{Observed: got, Expected: want})
+		default:
+			okExact("remotedeps")
+		}
+	}
+
 	// --- ModuleSetToDAG
 	in := s.closure(t)
 	anyCycle := false
